@@ -31,6 +31,8 @@ PROFILES = [
     ('kern_core', {'p_hidden_bar': 0.85, 'min_spines': 2, 'measures': (3, 5), 'p_split': 0.4, 'rows': (1, 2)}),
     # a whole spine ends (*-) in the middle of the score - the first column as often as any other - and the others go on
     ('kern_core', {'p_spine_end': 0.2, 'min_spines': 2, 'max_spines': 4, 'measures': (3, 6), 'rows': (2, 4), 'p_split': 0.1}),
+    # the same in scores with lyrics / dynamics / harmony beside the **kern spines (only the **kern spines are exported)
+    ('mixed_core', {'p_spine_end': 0.25, 'min_spines': 3, 'measures': (3, 6), 'rows': (2, 3), 'p_split': 0.05}),
 ]
 BOUNDARY_FROM = 8   # index of the first boundary profile in PROFILES
 # thorough tier only: more than 256 measures, more than 1000 lines
@@ -66,8 +68,8 @@ EXPLORED = [
 
 def build(cs, pname, over):
     if pname == 'mixed_core':
-        return make_doc(cs, 'kern_core', types=('**kern', '**kern', '**text', '**dynam', '**harm'), min_spines=2,
-                        max_spines=4, split_kern_only=True, **over)
+        return make_doc(cs, 'kern_core', **dict(dict(types=('**kern', '**kern', '**text', '**dynam', '**harm'), min_spines=2,
+                                                     max_spines=4, split_kern_only=True), **over))
     if pname == 'mixed':
         return make_doc(cs, 'default', types=('**kern', '**kern', '**text', '**dynam', '**harm'), min_spines=2, **over)
     return make_doc(cs, pname, **over)
@@ -130,6 +132,7 @@ def derive_document(ctx, d, doc, x, cs, derive):
         if derive == 'clone':
             out = d.clone()
         elif derive == 'transposed':
+            kpx.forget_bystander(d)
             out = d.to_transposed(drng.choice(['P5', 'M2', 'm3', 'octave']), drng.choice(['up', 'down']))
         elif derive == 'concat':
             lines_ = x.split('\n')
